@@ -117,7 +117,9 @@ def run_zv(zv, family, args, out, nshard=None, timeout=1800, env=None):
         try:
             _, err = p.communicate(timeout=max(1, deadline - time.time()))
         except subprocess.TimeoutExpired:
-            p.kill()
+            for q in procs:
+                if q.poll() is None:
+                    q.kill()
             raise Inconclusive("harness timeout in family " + family)
         if p.returncode != 0:
             errs.append((p.returncode, err.decode(errors="replace")[-2000:]))
